@@ -21,3 +21,11 @@ package symbolz
 //@   loop 3
 //@     step only_this_mapping: l.Mapping != m ==> same_elems(l.Line, atiter(3, l.Line))
 //@     step from_table: !same_elems(l.Line, atiter(3, l.Line)) ==> atiter(3, has(lines, l.Address)) && len(l.Line) == 1
+
+// ---- C12: adjust — address re-basing for the symbol service: the result is the address plus the signed offset whenever
+// that sum lies in [0, 2^64), and an overflow is signalled exactly when it does not (64-bit arithmetic exact) ----
+//@ spec macro func adjfits(addr uint64, offset int64) bool = ite(offset < 0, uint64(-offset) <= addr || offset == -9223372036854775808 && addr >= 9223372036854775808, addr <= 18446744073709551615 - uint64(offset))
+//@ func adjust arith bv
+//@   ensures sum: !result1 ==> result0 == addr + uint64(offset)
+//@   ensures overflow_flag: result1 <==> !adjfits(addr, offset)
+//@   ensures zero_on_overflow: result1 ==> result0 == 0
